@@ -29,6 +29,8 @@ def make_network(ctx, channel, name, via_notify=False, modifiable_tasks=True,
     net = canopen.Network(bus=bus)
     bus.attach(net, via_notify)
     ctx.cleanup.append(bus.shutdown)
+    if ctx.threaded:
+        bus.start_rx_task()
     return net, bus
 
 
